@@ -24,6 +24,8 @@
  *                    first round and the number of rounds that gave something else
  *       K<n>:<f><i>  n times: parse document i (strict, validated; meant for invalid documents), read the error records
  *                    (code, message, path), clean them; result of the first round and the number of rounds that differ
+ *       U<n>:<f><i>  parse document i (strict, validated), then n times: duplicate the tree, compare, every second round diff and
+ *                    every third round merge into another copy, free the copies; number of rounds that failed
  *       T<v> T-      ly_temp_log_options(): this thread overrides the logging options with v (decimal) / ends the override
  *       E            read ly_err_last() and ly_err_first() of this thread now
  *       C            ly_err_clean(ctx, NULL)
@@ -47,7 +49,7 @@
  * and once ALONE (every thread's workload in a thread of its own on a fresh context with a fresh shared tree); the per
  * operation results (return codes, FNV hashes of printed output, paths, error code/message/path/apptag) must be equal.
  *
- * Output (one line; HANG when a case does not finish within 20 s, 40 s under ThreadSanitizer):
+ * Output (one line; HANG when a case does not finish within 20 s, 25 s under ThreadSanitizer):
  *   ok | DIFF r<rep>t<thread>o<op>:<op text>:<concurrent>!=<alone>
  *   dict=<strings after setup>:<strings after everything of the last rep was freed>
  *   leak=<not-freed warnings>:<of them: cached canonical strings of shared-tree values (case not warm)>
@@ -56,6 +58,8 @@
  *   glob=ok | <what>   process-wide and per-context state after the concurrent runs against what the case set at its start:
  *        ly_log_options() round trip, ly_log_level(), log callback, the main thread's ly_temp_log_options(), context options
  *        and change count
+ *   refs=ok | <leaf>:<before>-><after>   reference counts of all compiled types of the shared schema after the threads were
+ *        joined (all private trees freed) against their values before the threads started
  *   pok=<parse operations that gave a valid tree and passed the whole pipeline, alone>/<parse operations>
  *   dangling=<times the H hook saw the arena reallocated between ly_err_get_rec()'s unlock and the caller's use of the
  *        record (informational)>
@@ -122,6 +126,27 @@ static const char *MOD_CD =
         " container other {leaf x {type cc:flags;} leaf y {type binary;} leaf z {type identityref {base cc:base-id;}}"
         "  leaf-list n {type int32;} container inner {presence \"p\"; leaf q {type empty;}}}"
         " augment \"/cc:top\" {leaf aug {type enumeration {enum one; enum two;}}}"
+        "}";
+
+/* values whose types reference shared schema objects: instance-identifiers with key / leaf-list predicates (compiled
+ * paths hold values of the key types and a reference on each type), leafrefs, a union with an instance-identifier member,
+ * identityrefs, bits and enumeration keys, decimal64, patterns and ranges */
+static const char *MOD_CE =
+        "module ce {yang-version 1.1; namespace \"urn:ce\"; prefix ce; import cc {prefix cc;}"
+        " typedef k1t {type string {length \"1..8\"; pattern \"[a-z]+\";}}"
+        " container box {"
+        "  list l {key \"k1 k2\"; leaf k1 {type k1t;} leaf k2 {type uint8 {range \"0..200\";}}"
+        "   leaf v {type decimal64 {fraction-digits 2; range \"-10..10\";}} leaf e {type enumeration {enum red; enum green;}}}"
+        "  list m {key \"id\"; leaf id {type cc:flags;} leaf w {type identityref {base cc:base-id;}}}"
+        "  list en {key \"c\"; leaf c {type enumeration {enum red; enum green; enum blue;}} leaf d {type empty;}}"
+        "  leaf-list ll {type int16 {range \"-50..50\";}}"
+        "  leaf-list idl {type identityref {base cc:base-id;}}"
+        "  leaf-list iid {type instance-identifier {require-instance false;}}"
+        "  leaf iid1 {type instance-identifier;}"
+        "  leaf uiid {type union {type instance-identifier {require-instance false;} type uint8; type enumeration {enum none;}}}"
+        "  leaf lr {type leafref {path \"../l/k1\";}}"
+        "  leaf lr2 {type leafref {path \"../ll\"; require-instance false;}}"
+        " }"
         "}";
 
 /* ------------------------------------------------------------------------------------------------
@@ -419,7 +444,8 @@ new_ctx(void)
     if (ly_ctx_new(NULL, LY_CTX_NO_YANGLIBRARY, &ctx)) {
         return NULL;
     }
-    if (lys_parse_mem(ctx, MOD_CC, LYS_IN_YANG, NULL) || lys_parse_mem(ctx, MOD_CD, LYS_IN_YANG, NULL)) {
+    if (lys_parse_mem(ctx, MOD_CC, LYS_IN_YANG, NULL) || lys_parse_mem(ctx, MOD_CD, LYS_IN_YANG, NULL) ||
+            lys_parse_mem(ctx, MOD_CE, LYS_IN_YANG, NULL)) {
         ly_ctx_destroy(ctx);
         return NULL;
     }
@@ -602,6 +628,15 @@ own_tree(struct thr *t, int di, char fmt, char *out, size_t n)
     h = fnv(h, &r, sizeof r);
     r = lyd_validate_all(&tree, ctx, LYD_VALIDATE_PRESENT, NULL);
     h = fnv(h, &r, sizeof r);
+    /* merge the edited copy into the re-parsed tree (values are duplicated), print the result */
+    r = lyd_merge_siblings(&tree2, dup, 0);
+    h = fnv(h, &r, sizeof r);
+    if (!r) {
+        STEP(lyd_print_mem(&s, tree2, LYD_JSON, LYD_PRINT_WITHSIBLINGS | LYD_PRINT_SHRINK));
+        h = fnvs(h, s);
+        free(s);
+        s = NULL;
+    }
 
 done:
 #undef STEP
@@ -926,6 +961,57 @@ thread_main(void *arg)
             }
             break;
         }
+        case 'U': {
+            unsigned cnt = 0, di = 0;
+            char f = 0;
+            struct lyd_node *tree = NULL;
+            LY_ERR r;
+
+            if ((sscanf(op + 1, "%u:%c%u", &cnt, &f, &di) != 3) || ((int)di >= ndocs) || ((f == 'l') && !docs[di].lyb)) {
+                snprintf(out, RESLEN, "?");
+                break;
+            }
+            if (f == 'l') {
+                struct ly_in *in = NULL;
+
+                ly_in_new_memory(docs[di].lyb, &in);
+                r = lyd_parse_data(t->ctx, NULL, in, LYD_LYB, LYD_PARSE_STRICT, LYD_VALIDATE_PRESENT, &tree);
+                ly_in_free(in, 0);
+            } else {
+                r = lyd_parse_data_mem(t->ctx, docs[di].text, (f == 'j') ? LYD_JSON : LYD_XML, LYD_PARSE_STRICT,
+                        LYD_VALIDATE_PRESENT, &tree);
+            }
+            if (r) {
+                char e[64];
+
+                err_token(t->ctx, e, sizeof e);
+                snprintf(out, RESLEN, "F%d:%s", (int)r, e);
+            } else {
+                int bad = 0;
+                struct lyd_node *keep = NULL;
+
+                bad += lyd_dup_siblings(tree, NULL, LYD_DUP_RECURSIVE, &keep) ? 1 : 0;
+                for (unsigned k = 0; k < cnt; ++k) {
+                    struct lyd_node *dup = NULL, *diff = NULL;
+
+                    bad += lyd_dup_siblings(tree, NULL, LYD_DUP_RECURSIVE, &dup) ? 1 : 0;
+                    bad += lyd_compare_siblings(tree, dup, LYD_COMPARE_FULL_RECURSION) ? 1 : 0;
+                    if (k % 2) {
+                        bad += lyd_diff_siblings(keep, dup, LYD_DIFF_DEFAULTS, &diff) ? 1 : 0;
+                        bad += diff ? 1 : 0;
+                    }
+                    if (!(k % 3)) {
+                        bad += lyd_merge_siblings(&keep, dup, 0) ? 1 : 0;
+                    }
+                    lyd_free_all(diff);
+                    lyd_free_all(dup);
+                }
+                lyd_free_all(keep);
+                snprintf(out, RESLEN, "u%u:%d", cnt, bad);
+            }
+            lyd_free_all(tree);
+            break;
+        }
         case 'T':
             if (op[1] == '-') {
                 ly_temp_log_options(NULL);
@@ -1163,6 +1249,81 @@ check_global_state(struct ly_ctx *ctx)
     }
 }
 
+/* reference counts of the compiled types of the shared schema (white box): leaf / leaf-list types, union members, leafref
+ * target types */
+struct tref {
+    const struct lysc_type *type;
+    const char *name;
+    uint32_t before;
+};
+static struct tref trefs[512];
+static int ntrefs;
+static char refs_bad[128];
+
+static void
+tref_add(const struct lysc_type *type, const char *name)
+{
+    LY_ARRAY_COUNT_TYPE u;
+
+    if (!type) {
+        return;
+    }
+    for (int i = 0; i < ntrefs; ++i) {
+        if (trefs[i].type == type) {
+            return;
+        }
+    }
+    if (ntrefs < 512) {
+        trefs[ntrefs].type = type;
+        trefs[ntrefs].name = name;
+        trefs[ntrefs].before = type->refcount;
+        ++ntrefs;
+    }
+    if (type->basetype == LY_TYPE_UNION) {
+        LY_ARRAY_FOR(((const struct lysc_type_union *)type)->types, u) {
+            tref_add(((const struct lysc_type_union *)type)->types[u], name);
+        }
+    } else if (type->basetype == LY_TYPE_LEAFREF) {
+        tref_add(((const struct lysc_type_leafref *)type)->realtype, name);
+    }
+}
+
+static LY_ERR
+tref_cb(struct lysc_node *node, void *data, ly_bool *dfs_continue)
+{
+    (void)data; (void)dfs_continue;
+    if (node->nodetype == LYS_LEAF) {
+        tref_add(((struct lysc_node_leaf *)node)->type, node->name);
+    } else if (node->nodetype == LYS_LEAFLIST) {
+        tref_add(((struct lysc_node_leaflist *)node)->type, node->name);
+    }
+    return LY_SUCCESS;
+}
+
+static void
+trefs_snapshot(struct ly_ctx *ctx)
+{
+    uint32_t idx = 0;
+    const struct lys_module *mod;
+
+    ntrefs = 0;
+    while ((mod = ly_ctx_get_module_iter(ctx, &idx))) {
+        if (mod->implemented && mod->compiled) {
+            lysc_module_dfs_full(mod, tref_cb, NULL);
+        }
+    }
+}
+
+static void
+trefs_check(void)
+{
+    for (int i = 0; (i < ntrefs) && !refs_bad[0]; ++i) {
+        if (trefs[i].type->refcount != trefs[i].before) {
+            snprintf(refs_bad, sizeof refs_bad, "%s:%u->%u", trefs[i].name, trefs[i].before, trefs[i].type->refcount);
+        }
+    }
+}
+
 static long dict_base, dict_end;
 static int dict_bad;
 static int leak_attr;
@@ -1245,6 +1406,7 @@ run_concurrent(int nthr, struct thr *T, char **ops)
         ly_ctx_destroy(ctx);
         return rc;
     }
+    trefs_snapshot(ctx);
     g_ctx = ctx;
     seq = 0;
     concurrent = 1;
@@ -1267,6 +1429,7 @@ run_concurrent(int nthr, struct thr *T, char **ops)
     pthread_barrier_destroy(&start_bar);
     concurrent = 0;
     check_global_state(ctx);
+    trefs_check();
 
     for (int i = 0; i < ncanon; ++i) {
         free(canon_strs[i]);
@@ -1362,7 +1525,7 @@ main(void)
         int nthr, reps, sh, nd, base;
 
 #ifdef CONC_TSAN
-        alarm(40);
+        alarm(25);
 #else
         alarm(20);
 #endif
@@ -1422,6 +1585,7 @@ main(void)
         ly_set_log_clb(log_cb);
         ly_temp_log_options(NULL);
         glob_bad[0] = 0;
+        refs_bad[0] = 0;
 
         lock_checked = lock_viol = dangling = 0;
         lock_viol_where[0] = 0;
@@ -1508,7 +1672,7 @@ main(void)
             printf("%s dict=%ld:%ld leak=%d:%d lock=%ld:%ld%s%s dangling=%ld", diff[0] ? diff : "ok", dict_base, dict_end,
                     notfreed - alone_notfreed, leak_attr, lock_checked, lock_viol, lock_viol ? "@" : "", lock_viol_where,
                     dangling);
-            printf(" glob=%s pok=%d/%d", glob_bad[0] ? glob_bad : "ok", pok, pall);
+            printf(" glob=%s refs=%s pok=%d/%d", glob_bad[0] ? glob_bad : "ok", refs_bad[0] ? refs_bad : "ok", pok, pall);
             if (alone_notfreed) {
                 printf(" aloneleak=%d", alone_notfreed);
             }
